@@ -173,6 +173,36 @@ theorem copysign_abs_one (x : ℝ) : |(copysign 1 x : ℝ)| = 1 := by
   rw [copysign_one_real]; split_ifs <;> simp
 
 
+/-! ranges of `atan2` / `atan2d` over ℝ -/
+
+theorem signNeg_real (x : ℝ) : signNeg x = decide (x < 0) := by
+  unfold signNeg
+  simp only [ltb_real, eqb_real, lit_real, Nat.cast_zero, Nat.cast_one]
+  by_cases h : x < 0
+  · simp [h]
+  · by_cases h0 : x = 0
+    · simp [h0]
+    · simp [h, h0]
+
+/-- `|atan2(y, x)| ≤ π/2` for `x ≥ 0`, with the sign of `y` -/
+theorem atan2_halfplane (y x : ℝ) (hx : 0 ≤ x) :
+    |RealLike.atan2 y x| ≤ Real.pi / 2 ∧ (0 ≤ y → 0 ≤ RealLike.atan2 y x) ∧ (y < 0 → RealLike.atan2 y x < 0) := by
+  refine ⟨Complex.abs_arg_le_pi_div_two_iff.mpr hx, fun h => Complex.arg_nonneg_iff.mpr h, fun h => Complex.arg_neg_iff.mpr h⟩
+
+theorem deg_pos : (0 : ℝ) < degree := by
+  unfold degree; simp only [lit_real]; have := Real.pi_pos; show 0 < Real.pi / _; positivity
+
+/-- a quotient by `degree` of an angle in `[−π/2, π/2]` lies in `[−90, 90]` -/
+theorem div_degree_bound (t : ℝ) (h : |t| ≤ Real.pi / 2) : |t / (degree : ℝ)| ≤ 90 := by
+  have hd := deg_pos
+  rw [abs_div, abs_of_pos hd, div_le_iff₀ hd]
+  have : (90 : ℝ) * degree = Real.pi / 2 := by
+    unfold degree; simp only [lit_real]
+    show (90 : ℝ) * (Real.pi / _) = _
+    push_cast; ring
+  rw [this]; exact h
+
+
 /-- `deltaE` at the end point of an arc whose sine and cosine are `(sk, ck)` -/
 noncomputable def E2arc (L : LineX ℝ) (K : Ell ℝ) (sk ck : ℝ) : ℝ :=
   K.deltaE (L.ssig1 * ck + L.csig1 * sk) (L.csig1 * ck - L.ssig1 * sk) (delta L.k2 L.kp2 (L.ssig1 * ck + L.csig1 * sk) (L.csig1 * ck - L.ssig1 * sk))
